@@ -1,6 +1,7 @@
 package verifsim
 
 import (
+	"context"
 	"crypto/sha256"
 	"encoding/json"
 	"fmt"
@@ -178,6 +179,11 @@ func RunRestartScenario(sc *Scenario) (vd *Verdict) {
 				return
 			}
 			h = nh
+			// what the application does when it starts: the scheduler loads the stored job definitions and adds them again
+			if err := h.Full.Sched.Start(context.Background()); err != nil {
+				fail(viol("C14", "restart", "scheduler-start-failed", "%v", err), i)
+				return
+			}
 			stats["restarts"]++
 			after := Observe(h, pool)
 			for _, k := range sortedKeys(before) {
@@ -319,89 +325,89 @@ func okOrNot(ok bool) string {
 // c14Apply performs one operation of a C14 history on hub h (everything but the restart itself).
 func c14Apply(h *Hub, op *Op, jobsCfg map[string]map[string]any, keys map[string][]byte, stats map[string]int64) (oerr error) {
 	switch op.K {
-		case "batch":
-			if ds := h.Dataset(op.DS); ds != nil {
-				oerr = ds.StoreEntities(h.Entities(op.Ents))
+	case "batch":
+		if ds := h.Dataset(op.DS); ds != nil {
+			oerr = ds.StoreEntities(h.Entities(op.Ents))
+		}
+	case "txn":
+		t := &server.Transaction{DatasetEntities: map[string][]*server.Entity{}}
+		ok := true
+		for _, p := range op.Parts {
+			if h.Dataset(p.DS) == nil {
+				ok = false
 			}
-		case "txn":
-			t := &server.Transaction{DatasetEntities: map[string][]*server.Entity{}}
-			ok := true
-			for _, p := range op.Parts {
-				if h.Dataset(p.DS) == nil {
-					ok = false
-				}
-				t.DatasetEntities[p.DS] = h.Entities(p.Ents)
-			}
-			if ok {
-				oerr = h.Store.ExecuteTransaction(t)
-			}
-		case "createDataset":
-			_, oerr = h.Dsm.CreateDataset(op.DS, settingsFromOp(op).config())
-		case "deleteDataset":
-			if h.Dataset(op.DS) != nil {
-				oerr = h.Dsm.DeleteDataset(op.DS)
-			}
-		case "setPublicNamespaces":
-			// the way a client changes a dataset's public namespaces: it stores the dataset's entity in core.Dataset
-			if h.Dataset(op.DS) != nil {
-				info, err := h.Store.NamespaceManager.GetDatasetNamespaceInfo()
-				if err == nil {
-					me, err := h.Store.GetEntity(info.DatasetPrefix+":"+op.DS, []string{"core.Dataset"}, true)
-					if err == nil && me != nil {
-						l := []interface{}{}
-						for _, x := range op.A {
-							l = append(l, x)
-						}
-						me.Properties[info.PublicNamespacesKey] = l
-						oerr = h.Dataset("core.Dataset").StoreEntities([]*server.Entity{me})
+			t.DatasetEntities[p.DS] = h.Entities(p.Ents)
+		}
+		if ok {
+			oerr = h.Store.ExecuteTransaction(t)
+		}
+	case "createDataset":
+		_, oerr = h.Dsm.CreateDataset(op.DS, settingsFromOp(op).config())
+	case "deleteDataset":
+		if h.Dataset(op.DS) != nil {
+			oerr = h.Dsm.DeleteDataset(op.DS)
+		}
+	case "setPublicNamespaces":
+		// the way a client changes a dataset's public namespaces: it stores the dataset's entity in core.Dataset
+		if h.Dataset(op.DS) != nil {
+			info, err := h.Store.NamespaceManager.GetDatasetNamespaceInfo()
+			if err == nil {
+				me, err := h.Store.GetEntity(info.DatasetPrefix+":"+op.DS, []string{"core.Dataset"}, true)
+				if err == nil && me != nil {
+					l := []interface{}{}
+					for _, x := range op.A {
+						l = append(l, x)
 					}
+					me.Properties[info.PublicNamespacesKey] = l
+					oerr = h.Dataset("core.Dataset").StoreEntities([]*server.Entity{me})
 				}
 			}
-		case "renameDataset":
-			if h.Dataset(op.DS) != nil && h.Dataset(op.DS2) == nil {
-				_, oerr = h.Dsm.UpdateDataset(op.DS, &server.UpdateDatasetConfig{ID: op.DS2})
-			}
-		case "addJob":
-			if src, ok := op.M["source"].(map[string]any); ok && h.Dataset(fmt.Sprint(src["Name"])) == nil {
-				break
-			}
-			oerr = h.AddJobJSON(op.M)
-			if oerr == nil {
-				jobsCfg[fmt.Sprint(op.M["id"])] = op.M
-			}
-		case "pauseJob":
-			if jobsCfg[op.S] != nil {
-				oerr = h.Full.Sched.PauseJob(op.S)
-			}
-		case "resumeJob":
-			if jobsCfg[op.S] != nil {
-				oerr = h.Full.Sched.UnpauseJob(op.S)
-			}
-		case "deleteJob":
-			if jobsCfg[op.S] != nil {
-				oerr = h.Full.Sched.DeleteJob(op.S)
-				delete(jobsCfg, op.S)
-			}
-		case "run":
-			if jobsCfg[op.S] != nil {
-				_, _, _ = h.RunJobToEnd(op.S, op.DS, time.Hour)
-				stats["job_runs"]++
-			}
-		case "registerClient":
-			h.Full.Web.Core.RegisterClient(&security.ClientInfo{ClientID: op.S, PublicKey: keys[op.S]})
-		case "deleteClient":
-			h.Full.Web.Core.RegisterClient(&security.ClientInfo{ClientID: op.S, Deleted: true})
-		case "setAcl":
-			var acl []*security.AccessControl
-			b, _ := json.Marshal(op.A)
-			_ = json.Unmarshal(b, &acl)
-			h.Full.Web.Core.SetClientAccessControls(op.S, acl)
-		case "deleteAcl":
-			h.Full.Web.Core.DeleteClientAccessControls(op.S)
-		case "addProvider":
-			oerr = h.Full.Web.TPS.Add(security.ProviderConfig{Name: op.S, Type: "basic", User: &security.ValueReader{Type: "text", Value: "u" + op.S}, Password: &security.ValueReader{Type: "text", Value: "p"}})
-		case "deleteProvider":
-			_ = h.Full.Web.TPS.DeleteProvider(op.S)
+		}
+	case "renameDataset":
+		if h.Dataset(op.DS) != nil && h.Dataset(op.DS2) == nil {
+			_, oerr = h.Dsm.UpdateDataset(op.DS, &server.UpdateDatasetConfig{ID: op.DS2})
+		}
+	case "addJob":
+		if src, ok := op.M["source"].(map[string]any); ok && h.Dataset(fmt.Sprint(src["Name"])) == nil {
+			break
+		}
+		oerr = h.AddJobJSON(op.M)
+		if oerr == nil {
+			jobsCfg[fmt.Sprint(op.M["id"])] = op.M
+		}
+	case "pauseJob":
+		if jobsCfg[op.S] != nil {
+			oerr = h.Full.Sched.PauseJob(op.S)
+		}
+	case "resumeJob":
+		if jobsCfg[op.S] != nil {
+			oerr = h.Full.Sched.UnpauseJob(op.S)
+		}
+	case "deleteJob":
+		if jobsCfg[op.S] != nil {
+			oerr = h.Full.Sched.DeleteJob(op.S)
+			delete(jobsCfg, op.S)
+		}
+	case "run":
+		if jobsCfg[op.S] != nil {
+			_, _, _ = h.RunJobToEnd(op.S, op.DS, time.Hour)
+			stats["job_runs"]++
+		}
+	case "registerClient":
+		h.Full.Web.Core.RegisterClient(&security.ClientInfo{ClientID: op.S, PublicKey: keys[op.S]})
+	case "deleteClient":
+		h.Full.Web.Core.RegisterClient(&security.ClientInfo{ClientID: op.S, Deleted: true})
+	case "setAcl":
+		var acl []*security.AccessControl
+		b, _ := json.Marshal(op.A)
+		_ = json.Unmarshal(b, &acl)
+		h.Full.Web.Core.SetClientAccessControls(op.S, acl)
+	case "deleteAcl":
+		h.Full.Web.Core.DeleteClientAccessControls(op.S)
+	case "addProvider":
+		oerr = h.Full.Web.TPS.Add(security.ProviderConfig{Name: op.S, Type: "basic", User: &security.ValueReader{Type: "text", Value: "u" + op.S}, Password: &security.ValueReader{Type: "text", Value: "p"}})
+	case "deleteProvider":
+		_ = h.Full.Web.TPS.DeleteProvider(op.S)
 	}
 	return oerr
 }
